@@ -26,7 +26,7 @@ CONFIG = {
              'half of (b) the owner makes the straggler\'s very call before forking, so late calls REPEAT observations the '
              'same instance already recorded (a memo of recorded observations must not bypass the fence); evaluations = late calls + schedules judged; '
              'distinct_nontrivial = distinct (owner kind, method, outcome, recorded?) x switch sequences'),
-    'gates': ['orphan_late_calls', 'focused_lock_pairs', 'base_exception_late_calls', 'primed_straggler_runs', 'complex_stragglers', 'complex_straggler_after_close', 'late_calls', 'root_late_calls', 'straggler_schedules', 'straggler_ok_recorded',
+    'gates': ['orphan_late_calls', 'focused_lock_pairs', 'base_exception_late_calls', 'primed_straggler_runs', 'complex_stragglers', 'complex_straggler_after_close', 'complex_straggler_function_spans_close', 'late_calls', 'root_late_calls', 'straggler_schedules', 'straggler_ok_recorded',
               'straggler_rejected', 'straggler_single_layers', 'next_build_probes'],
 }
 
@@ -426,7 +426,17 @@ def run_straggler(sh, rng, owner, method, strategy_list, free=False):
                                          {'straggler': {k: v for k, v in st.items() if k != 'thread'},
                                           't_close': t_done, 'events': [e['ev'] for e in evs][:4],
                                           'target_exists': exists}, case)
-                    sh.nt((owner, method, out[0], late))
+                    # a call that was invoked before the close but whose user function returned only after
+                    # it: the record it belongs to is closed by then, so it cannot complete normally (for a
+                    # root builder there is no list to append to - the fence is the only thing that stops it)
+                    t_fn = st.get('t_fn_ret')
+                    if t_done is not None and t_fn is not None and t_fn > t_done:
+                        sh.count('complex_straggler_function_spans_close')
+                        if out[0] == 'ok':
+                            sh.violation('complex_call_completed_after_close|' + tag,
+                                         {'straggler': {k: v for k, v in st.items() if k != 'thread'},
+                                          't_close': t_done}, case)
+                    sh.nt((owner, method, out[0], late, t_fn is not None and t_done is not None and t_fn > t_done))
                     continue
                 recorded_expected = None
                 if out[0] == 'ok':
